@@ -295,6 +295,15 @@ func c14Node(args []string) {
 			}
 			st.BufferReader().ReleasePreviousRead()
 			atomic.AddInt64(&node.roundTrips, 1)
+			if idx%2 == 0 && r%16 == 15 && cf.Directed == "" {
+				// stream churn: close this stream and carry on with a fresh one (reaches the close / half-close fault points)
+				st.Close()
+				ns, err := s.OpenStream()
+				if err != nil {
+					return
+				}
+				st = ns
+			}
 		}
 		// rounds exhausted: wait for the end of the session
 		<-s.CloseChan()
@@ -308,7 +317,10 @@ func c14Node(args []string) {
 			if cf.Callbacks && i%2 == 1 {
 				cb := &c14Callbacks{st: st, msg: cf.MsgSize, node: node}
 				st.SetCallbacks(cb)
-				cbs = append(cbs, cb)
+				if st.IsOpen() {
+					// only a stream that was still open once its callbacks were installed owes a close callback
+					cbs = append(cbs, cb)
+				}
 				// callback streams on the client only send; the echo is consumed by OnData
 				wg.Add(1)
 				atomic.AddInt32(&workers, 1)
@@ -345,12 +357,16 @@ func c14Node(args []string) {
 					return
 				}
 				n++
-				if cf.Callbacks && n%2 == 0 {
+				// callback mode for the streams the client also runs in callback mode (its odd-indexed initial streams, ids 3, 5, …);
+				// streams opened later by the client's churn are always served synchronously
+				if id := st.StreamID(); cf.Callbacks && int(id) <= cf.Streams+1 && (id-2)%2 == 1 {
 					cb := &c14Callbacks{st: st, msg: cf.MsgSize, echo: true, node: node}
-					repMu.Lock()
-					cbs = append(cbs, cb)
-					repMu.Unlock()
 					st.SetCallbacks(cb)
+					if st.IsOpen() {
+						repMu.Lock()
+						cbs = append(cbs, cb)
+						repMu.Unlock()
+					}
 					continue
 				}
 				wg.Add(1)
@@ -358,6 +374,7 @@ func c14Node(args []string) {
 				go func(st *Stream) {
 					defer wg.Done()
 					defer atomic.AddInt32(&returned, 1)
+					defer st.Close()
 					for {
 						after := atomic.LoadUint32(&deathSeen) == 1
 						b, err := st.BufferReader().ReadBytes(cf.MsgSize)
@@ -787,7 +804,7 @@ func runC14Case(c *checkCtx, cs c14Case) (out c14Outcome) {
 	// two nodes
 	n := atomic.AddUint64(&pairSeq, 1)
 	sock := filepath.Join(sockDir(), fmt.Sprintf("c14_%d.sock", n))
-	prefix := fmt.Sprintf("/dev/shm/verif_c14_%d_%d", os.Getpid(), n)
+	prefix := fmt.Sprintf("/dev/shm/verif_c14_%d_%dx", os.Getpid(), n) // ends with a delimiter: prefixes must not be prefixes of each other
 	defer os.Remove(sock)
 	defer func() {
 		if m, _ := filepath.Glob(prefix + "*"); len(m) > 0 {
@@ -979,19 +996,24 @@ var c14FaultPoints = []struct {
 	point string
 	ks    []int64
 	hs    []int64
+	only  string // "" or the only victim role that passes this point in the traffic pattern used
 }{
-	{"Handshake", []int64{1}, []int64{1, 2, 3, 4, 5, 6, 7, 8, 9, 10, 11, 12, 13, 14, 15, 16, 17, 20, 21, 22, 23, 24}},
-	{"FlushStateChecked", []int64{1, 2, 7, 40}, nil},
-	{"FlushPut", []int64{1, 3, 25}, nil},
-	{"WakeMarked", []int64{1, 2, 9}, nil},
-	{"PollPopped", []int64{1, 2, 5, 60}, nil},
-	{"PollBeforeMNW", []int64{1, 4}, nil},
-	{"EventDispatch", []int64{1, 2, 6, 30}, nil},
-	{"FillAdded", []int64{1, 3, 17}, nil},
-	{"ReadMoreBeforeWait", []int64{1, 5}, nil},
-	{"WriteEventEnter", []int64{1, 3}, nil},
-	{"QPutStore2", []int64{1, 4}, nil},
-	{"PopCleared", []int64{1, 6}, nil},
+	{"Handshake", []int64{1}, []int64{1, 2, 3, 4, 5, 6, 7, 8, 9, 10, 11, 12, 13, 14, 15, 16, 17, 20, 21, 22, 23, 24}, ""},
+	{"FlushStateChecked", []int64{1, 2, 7, 40}, nil, ""},
+	{"FlushPut", []int64{1, 3, 25}, nil, ""},
+	{"WakeMarked", []int64{1, 2, 9}, nil, ""},
+	{"PollPopped", []int64{1, 2, 5, 60}, nil, ""},
+	{"PollBeforeMNW", []int64{1, 4}, nil, ""},
+	{"EventDispatch", []int64{1, 2, 6, 30}, nil, ""},
+	{"FillAdded", []int64{1, 3, 17}, nil, ""},
+	{"ReadMoreBeforeWait", []int64{1, 5}, nil, ""},
+	{"WriteEventEnter", []int64{1, 3}, nil, ""},
+	{"QPutStore2", []int64{1, 4}, nil, ""},
+	{"PopCleared", []int64{1, 6}, nil, ""},
+	{"StreamCloseCASed", []int64{1, 2}, nil, ""},
+	{"StreamCloseBeforeNotify", []int64{1, 2}, nil, "client"},
+	{"HalfClosed", []int64{1, 2}, nil, "server"},
+	{"PushCASed", []int64{2, 9}, nil, ""},
 }
 
 // c14HsReachable: the handshake steps (vpHandshake numbers) each role passes for each mapping type.
@@ -1039,6 +1061,9 @@ func checkDeath(c *checkCtx) {
 	}
 	for _, fp := range c14FaultPoints {
 		for _, role := range []string{"server", "client"} {
+			if (fp.only == "client" && role == "client") || (fp.only == "server" && role == "server") {
+				continue // role is the survivor's: the victim (other role) does not pass this point
+			}
 			for _, memfd := range []bool{false, true} {
 				for _, action := range []string{"die", "sever"} {
 					if fp.point == "Handshake" {
@@ -1066,7 +1091,7 @@ func checkDeath(c *checkCtx) {
 		// quick: a seed-chosen subset of the enumerated list
 		rng := caseRand(c.seed, 499999)
 		rng.Shuffle(len(cases), func(i, j int) { cases[i], cases[j] = cases[j], cases[i] })
-		cases = cases[:44]
+		cases = cases[:52]
 	}
 	for i := 0; i < c.pick(6, 60); i++ {
 		add(c14Case{Kind: "external-kill", SurvivorRole: []string{"server", "client"}[i%2], Memfd: i%4 < 2, Streams: 1 + i%8, Callbacks: i%3 == 0})
@@ -1127,7 +1152,14 @@ func checkDeath(c *checkCtx) {
 			}
 		}()
 	}
+	only := os.Getenv("VERIF_C14_ONLY") // debugging aid: run a single case index
 	for _, cs := range cases {
+		if only != "" && fmt.Sprint(cs.Idx) != only {
+			continue
+		}
+		if only != "" {
+			fmt.Printf("case %+v\n", cs)
+		}
 		jobs <- cs
 	}
 	close(jobs)
